@@ -263,16 +263,35 @@ def judge_valgrind(case):
         f.write("kout\n")
     lines = [c[0] for c in case["cmds"] if c[1] != "bg"]
     env = sb.env()
-    p = subprocess.run(["/usr/bin/valgrind", "--track-fds=yes", "--error-exitcode=0", sb.cicada, "-c", " ; ".join(lines)],
-                       cwd=sb.work, env=env, stdin=subprocess.DEVNULL, capture_output=True, timeout=300)
-    err = p.stderr.decode("utf-8", "replace")
-    res = {"script": lines, "mode": "valgrind -c"}
+    env["VP_INC"] = sb.root
+    if case.get("script_mode"):
+        # (the generated lines of a script-mode case call the function the script defines)
+        path = os.path.join(sb.root, "sv.sh")
+        with open(path, "w") as f:
+            f.write("function myfn {\n    vp_out K $1\n}\n" + "\n".join(lines) + "\n")
+        argv = [sb.cicada, path]
+    else:
+        argv = [sb.cicada, "-c", " ; ".join(lines)]
+    with open(os.path.join(sb.root, "inc.sh"), "w") as f:
+        f.write("vp_argv inc @0\nvp_out K @0 | vp_st snk @0\nSV=1\n")
+    p = subprocess.Popen(["/usr/bin/valgrind", "--track-fds=yes", "--error-exitcode=0"] + argv,
+                         cwd=sb.work, env=env, stdin=subprocess.DEVNULL, stdout=subprocess.PIPE, stderr=subprocess.PIPE)
+    try:
+        _, perr = p.communicate(timeout=300)
+    except subprocess.TimeoutExpired:
+        p.kill()
+        p.communicate()
+        return ("inconclusive", "valgrind run timed out", {"script": lines})
+    # only the report of the shell process itself: a forked child that fails to exec (command not found) prints a report of
+    # its own, with the redirection targets it had opened for the program it could not start
+    tag = "==%d== " % p.pid
+    err = "\n".join(l for l in perr.decode("utf-8", "replace").split("\n") if l.startswith(tag) or l.strip() == tag.strip())
+    res = {"script": lines, "mode": "valgrind script" if case.get("script_mode") else "valgrind -c", "shell_pid": p.pid}
     import re as _re
     blocks = _re.split(r"(?m)^==\d+== Open file descriptor ", err)[1:]
     mine = [b for b in blocks if "<inherited from parent>" not in b.split("==\n")[0] and "inherited from parent" not in b[:300]]
-    # only the report of the shell process itself (forked children that fail to exec print one too)
     summ = _re.findall(r"==(\d+)== FILE DESCRIPTORS: (\d+) open \((\d+) std\) at exit", err)
-    res["valgrind_fd_summary"] = summ[-1:] 
+    res["valgrind_fd_summary"] = summ[-1:]
     if not summ:
         return ("inconclusive", "valgrind printed no descriptor summary", res)
     res["open_at_exit"] = [b.split("\n")[0] for b in blocks]
